@@ -2,6 +2,7 @@ package smt
 
 import (
 	"fmt"
+	"os"
 	"sync"
 	"time"
 )
@@ -44,6 +45,21 @@ func buildRescale(t, lo, hi *Term) *Term {
 }
 
 func matchRescale(x *Term) (t, lo, hi *Term, ok bool) {
+	// constant limits with lo = 0 fold the addition and the subtraction away:
+	//   ite(bad, MinInt, to_sbv((to_fp(t)/255) * C))   with C = float64(hi)
+	if x.Op == OpIte && x.Sort.W == 64 && x.Args[2].Op == OpFPToSBV {
+		f := x.Args[2].Args[0]
+		if f.Op == OpFPMul && f.Args[0].Op == OpFPDiv && f.Args[0].Args[0].Op == OpSBVToFP && f.Args[1].IsConst() {
+			c := f.Args[1].F
+			tt := f.Args[0].Args[0].Args[0]
+			if c == float64(int64(c)) && c >= 0 && c <= 255 && tt.Sort.W == 64 {
+				l, h := IntC(0), IntC(int64(c))
+				if buildRescale(tt, l, h) == x {
+					return tt, l, h, true
+				}
+			}
+		}
+	}
 	if x.Op != OpBVAdd || x.Sort.W != 64 || len(x.Args) != 2 {
 		return
 	}
@@ -82,6 +98,7 @@ type LemmaStatus struct {
 	Result  string
 	Seconds float64
 	Solver  string
+	Cases   int
 }
 
 var (
@@ -93,7 +110,9 @@ var (
 	LemmaSolver = CVC5
 )
 
-func proveLemma(name string, negation []*Term) *LemmaStatus {
+// proveLemma proves a lemma once per run. The negation is given as a list of alternative
+// case-split queries (all must be unsat); they run in parallel.
+func proveLemma(name string, cases [][]*Term) *LemmaStatus {
 	lemmaMu.Lock()
 	o, ok := lemmaOnce[name]
 	if !ok {
@@ -102,8 +121,25 @@ func proveLemma(name string, negation []*Term) *LemmaStatus {
 	}
 	lemmaMu.Unlock()
 	o.Do(func() {
-		a := Solve(LemmaSolver, negation, nil, LemmaCap)
-		st := &LemmaStatus{Name: name, Proved: a.Res == Unsat, Result: a.Res.String(), Seconds: a.Seconds, Solver: a.Solver}
+		t0 := time.Now()
+		res := make([]Result, len(cases))
+		var wg sync.WaitGroup
+		for i := range cases {
+			wg.Add(1)
+			go func(i int) {
+				defer wg.Done()
+				res[i] = Solve(LemmaSolver, cases[i], nil, LemmaCap).Res
+			}(i)
+		}
+		wg.Wait()
+		st := &LemmaStatus{Name: name, Proved: true, Result: "unsat", Solver: versionOf(LemmaSolver), Cases: len(cases)}
+		for _, r := range res {
+			if r != Unsat {
+				st.Proved = false
+				st.Result = r.String()
+			}
+		}
+		st.Seconds = time.Since(t0).Seconds()
 		lemmaMu.Lock()
 		lemmaStat[name] = st
 		lemmaMu.Unlock()
@@ -118,7 +154,7 @@ func Lemmas() []LemmaStatus {
 	lemmaMu.Lock()
 	defer lemmaMu.Unlock()
 	var out []LemmaStatus
-	for _, n := range []string{"rescale.range", "rescale.ends", "rescale.monotone"} {
+	for _, n := range []string{"rescale.range", "rescale.ends", "rescale.identity", "rescale.monotone"} {
 		if s, ok := lemmaStat[n]; ok {
 			out = append(out, *s)
 		}
@@ -126,28 +162,46 @@ func Lemmas() []LemmaStatus {
 	return out
 }
 
-func genericVars() (t, lo, hi, t2 *Term) {
-	return Var("lemma!t", BV64), Var("lemma!lo", BV64), Var("lemma!hi", BV64), Var("lemma!t2", BV64)
+// The lemmas are stated over 8-bit variables zero-extended to 64 bits: every 64-bit value that
+// satisfies the precondition 0 <= x <= 255 is the zero-extension of its low byte, so this covers
+// exactly the instances the facts are used for.
+func genericVars() (t, lo, hi *Term, t8 *Term) {
+	t8 = Var("lemma!t", BV8)
+	return ZeroExt(56, t8), ZeroExt(56, Var("lemma!lo", BV8)), ZeroExt(56, Var("lemma!hi", BV8)), t8
 }
 
 func rangeLemma() bool {
-	t, lo, hi, _ := genericVars()
+	t, lo, hi, t8 := genericVars()
 	r := buildRescale(t, lo, hi)
-	s := proveLemma("rescale.range", []*Term{rescalePre(t, lo, hi), Not(And(Sle(lo, r), Sle(r, hi)))})
-	return s.Proved
+	var cases [][]*Term
+	for k := 0; k < 4; k++ {
+		cases = append(cases, []*Term{Eq(Extract(7, 6, t8), BVC(uint64(k), 2)), rescalePre(t, lo, hi), Not(And(Sle(lo, r), Sle(r, hi)))})
+	}
+	return proveLemma("rescale.range", cases).Proved
 }
 
 func endsLemma() bool {
 	_, lo, hi, _ := genericVars()
 	pre := rescalePre(IntC(0), lo, hi)
-	s := proveLemma("rescale.ends", []*Term{pre, Not(And(Eq(buildRescale(IntC(0), lo, hi), lo), Eq(buildRescale(IntC(255), lo, hi), hi)))})
-	return s.Proved
+	return proveLemma("rescale.ends", [][]*Term{{pre, Not(And(Eq(buildRescale(IntC(0), lo, hi), lo), Eq(buildRescale(IntC(255), lo, hi), hi)))}}).Proved
 }
 
+// identityLemma: with the full range lo=0, hi=255 the rescale is the identity on 0..255.
+func identityLemma() bool {
+	t, _, _, _ := genericVars()
+	return proveLemma("rescale.identity", [][]*Term{{rescalePre(t, IntC(0), IntC(255)), Not(Eq(buildRescale(t, IntC(0), IntC(255)), t))}}).Proved
+}
+
+// monoLemma: R(t) <= R(t+1) for every t in 0..254 (16 parallel cases on t's high nibble);
+// monotonicity over the integer range 0..255 follows by transitivity.
 func monoLemma() bool {
-	t, lo, hi, t2 := genericVars()
-	s := proveLemma("rescale.monotone", []*Term{rescalePre(t, lo, hi), rescalePre(t2, lo, hi), Sle(t, t2), Not(Sle(buildRescale(t, lo, hi), buildRescale(t2, lo, hi)))})
-	return s.Proved
+	t, lo, hi, t8 := genericVars()
+	var cases [][]*Term
+	for k := 0; k < 16; k++ {
+		cases = append(cases, []*Term{Eq(Extract(7, 4, t8), BVC(uint64(k), 4)), rescalePre(t, lo, hi), Slt(t, IntC(255)),
+			Not(Sle(buildRescale(t, lo, hi), buildRescale(Add(t, IntC(1)), lo, hi)))})
+	}
+	return proveLemma("rescale.monotone", cases).Proved
 }
 
 // Replace substitutes whole sub-terms (top-down: a replaced node is not descended into).
@@ -184,7 +238,7 @@ type rescaleInst struct {
 // AbstractKernels rewrites the assertions, replacing recognised rescale kernels by fresh integers
 // constrained by proved lemmas. needMono asks for the monotonicity lemma (two or more instances).
 // It returns the new assertions and the number of instances abstracted (0 = unchanged).
-func AbstractKernels(asserts []*Term) ([]*Term, int) {
+func AbstractKernels(asserts []*Term, mono bool) ([]*Term, int) {
 	if LemmasOff {
 		return asserts, 0
 	}
@@ -212,6 +266,12 @@ func AbstractKernels(asserts []*Term) ([]*Term, int) {
 	if !rangeLemma() || !endsLemma() {
 		return asserts, 0
 	}
+	ident := identityLemma()
+	if os.Getenv("FGSYM_DEBUG") == "2" {
+		for _, in := range insts {
+			fmt.Fprintf(os.Stderr, "kernel %d: t=%s\n   lo=%s\n   hi=%s\n", in.m.ID, in.t, in.lo, in.hi)
+		}
+	}
 	repl := map[*Term]*Term{}
 	for _, in := range insts {
 		in.v = Var(fmt.Sprintf("rescale!%d", in.m.ID), BV64)
@@ -225,23 +285,19 @@ func AbstractKernels(asserts []*Term) ([]*Term, int) {
 			Implies(pre, And(Sle(in.lo, in.v), Sle(in.v, in.hi))),
 			Implies(And(pre, Eq(in.t, IntC(0))), Eq(in.v, in.lo)),
 			Implies(And(pre, Eq(in.t, IntC(255))), Eq(in.v, in.hi)))
-	}
-	needMono := false
-	for i := range insts {
-		for j := range insts {
-			if i != j && insts[i].lo == insts[j].lo && insts[i].hi == insts[j].hi {
-				needMono = true
-			}
+		if ident {
+			facts = append(facts, Implies(And(pre, Eq(in.lo, IntC(0)), Eq(in.hi, IntC(255))), Eq(in.v, in.t)))
 		}
 	}
-	if needMono && monoLemma() {
+	// monotonicity between any two instances whose limits are (semantically) equal
+	if mono && len(insts) > 1 && monoLemma() {
 		for i := range insts {
 			for j := range insts {
-				a, b := insts[i], insts[j]
-				if i == j || a.lo != b.lo || a.hi != b.hi {
+				if i == j {
 					continue
 				}
-				pre := And(rescalePre(a.t, a.lo, a.hi), rescalePre(b.t, b.lo, b.hi))
+				a, b := insts[i], insts[j]
+				pre := And(rescalePre(a.t, a.lo, a.hi), rescalePre(b.t, b.lo, b.hi), Eq(a.lo, b.lo), Eq(a.hi, b.hi))
 				facts = append(facts, Implies(And(pre, Sle(a.t, b.t)), Sle(a.v, b.v)))
 			}
 		}
@@ -254,4 +310,27 @@ func AbstractKernels(asserts []*Term) ([]*Term, int) {
 		out = append(out, Replace(f, repl, memo))
 	}
 	return out, len(insts)
+}
+
+// KernelInputVars lists the variables occurring in the arguments of recognised kernels.
+func KernelInputVars(asserts []*Term) []*Term {
+	seen := map[*Term]bool{}
+	var args []*Term
+	var walk func(*Term)
+	walk = func(x *Term) {
+		if seen[x] {
+			return
+		}
+		seen[x] = true
+		if t, lo, hi, ok := matchRescale(x); ok {
+			args = append(args, t, lo, hi)
+		}
+		for _, a := range x.Args {
+			walk(a)
+		}
+	}
+	for _, a := range asserts {
+		walk(a)
+	}
+	return Vars(args...)
 }
